@@ -150,6 +150,20 @@ func WaitTimeout(wg *sync.WaitGroup, abort <-chan struct{}, d time.Duration) boo
 // Thorough tells whether the thorough tier is running.
 func Thorough() bool { return Tier() == "thorough" }
 
+// FatalExit is the panic value that replaces os.Exit when the code under test calls
+// log.Fatal: a handler that does so takes the server down just as a panic does, and the
+// harness must survive it to report it
+type FatalExit struct{ Code int }
+
+func (f FatalExit) Error() string {
+	return fmt.Sprintf("log.Fatal called: the server process exits with status %d", f.Code)
+}
+func (f FatalExit) String() string { return f.Error() }
+
+func init() {
+	logger.GetLogger("verif").Logger.ExitFunc = func(code int) { panic(FatalExit{code}) }
+}
+
 // Quiet silences the logging of the code under test (public logger API).
 func Quiet() {
 	l := logger.GetLogger("verif").Logger
